@@ -303,11 +303,15 @@ impl<'a> Run<'a> {
         }
         else {
             // Run the actual update.
+            #[cfg(routinator_verif)]
+            crate::verif::point("rsync.fetch.begin");
             let metrics = command.update(
                 module.as_ref(),
                 &self.collector.working_dir.module_path(module.as_ref()),
                 log
             );
+            #[cfg(routinator_verif)]
+            crate::verif::point("rsync.fetch.end");
 
             // Insert into updated map and metrics.
             self.metrics.lock().push(metrics);
